@@ -458,6 +458,7 @@ def generator_half(ctx, tmpdir, horizons):
             if M.shape[0] != M.shape[1] or m > n:
                 bad("load-shape", f"{base + suffix}.rudy loads with shape {M.shape} for {n} variables", info)
                 continue
+            items = sparse_items(M)              # before get_Ising_J_h, which zeroes M's diagonal in place
             Jl, hl = get_Ising_J_h(M)
             s = x_to_s(x)
             e_load = evaluate_Ising(Jl, hl, lc, s[:m])
@@ -469,7 +470,6 @@ def generator_half(ctx, tmpdir, horizons):
                     bad("f-energy", f"{base}f.rudy: energy of the stored feasible solution is {e_load} reloaded, {e_mem} in memory (expected 0)", info)
             else:
                 # objective version: exact energy of the two-decimal file vs in-memory, up to the rounding
-                items = sparse_items(M)
                 e_file = F(hundredths(lc), 100)
                 for (i, j), v in items.items():
                     z = F(hundredths(float(v)), 100)
